@@ -193,9 +193,9 @@ def split(combined_unit):
     prefix_re = "(?P<prefix>{})".format(PREFIXES)
     unit_re = "(?P<unit>{})".format(UNITS)
     power_re = "(?P<power>{})".format(POWER)
-    pup = re.compile(prefix_re + unit_re + power_re)
-    prefix_matcher = re.compile(prefix_re + unit_re)
-    unit_matcher = re.compile(unit_re + power_re)
+    pup = re.compile(prefix_re + unit_re + power_re + "$")
+    prefix_matcher = re.compile(prefix_re + unit_re + "$")
+    unit_matcher = re.compile(unit_re + power_re + "$")
     # u = re.compile(unit_re)
     # p = re.compile(prefix_re)
 
